@@ -39,7 +39,10 @@ func VerifyFuncOpt(p *Program, key string, noInv bool) (enc *Enc, err error) {
 				err = fmt.Errorf("%s: outside the supported subset or contract error: %s", key, ee.msg)
 				return
 			}
-			panic(r)
+			// any other failure of the generator on this function: its obligations cannot be
+			// generated (the check reports that; it must not take the whole run down)
+			enc = e
+			err = fmt.Errorf("%s: outside the supported subset (generator failure: %v)", key, r)
 		}
 	}()
 	f := &Frame{E: e, Fn: fn, C: fc, vals: map[ssa.Value]*Val{}, params: map[string]*Val{}, isTop: true, nopanic: fc.NoPanic}
